@@ -65,7 +65,10 @@ func (g *advGen) addr() string {
 	case 4:
 		return kernel.ModuleAddr(vtypes.ModuleName).String()
 	case 5:
-		return kernel.ActorBech(g.w.fresh())
+		// a brand-new address whose owner keeps acting later (it may become a vesting account through this very message)
+		n := g.w.fresh()
+		g.w.VestActors = append(g.w.VestActors, n)
+		return kernel.ActorBech(n)
 	case 6:
 		if len(g.w.VestActors) > 0 {
 			return kernel.ActorBech(g.w.VestActors[r.Intn(len(g.w.VestActors))])
@@ -487,6 +490,10 @@ type marshaler interface{ Marshal() ([]byte, error) }
 
 func (g *advGen) genQuery(r *kernel.Run) *kernel.Query {
 	path := queryMethods[g.rng.Intn(len(queryMethods))]
+	if g.rng.Intn(5) == 0 {
+		// queries without arguments depend on the state only: ask them often, right after every kind of block
+		path = []string{"/chain4energy.c4echain.cfeminter.Query/Inflation", "/chain4energy.c4echain.cfevesting.Query/VestingsSummary", "/chain4energy.c4echain.cfedistributor.Query/States", "/chain4energy.c4echain.cfeminter.Query/State"}[g.rng.Intn(4)]
+	}
 	var req marshaler
 	switch path[strings.LastIndex(path, "/")+1:] {
 	case "VestingPools":
@@ -622,6 +629,22 @@ func c20RunSeed(seed uint64, tier string) *Outcome {
 	valid := w.txGens(map[string]int{"createPool": 1, "send": 1, "withdraw": 0, "createVestingAccount": 1, "split": 1, "move": 0, "delegate": 0})
 	gens := []TxGen{g.txGen, g.txGen, g.txGen, g.txGen}
 	gens = append(gens, valid...)
+	// valid parameter updates applied the way governance applies them (message router, gov authority): queries and
+	// messages must survive every parameter state that validation accepts
+	gw := &govWorld{Voter: spec.Clients[0], Attackers: spec.Clients[1:], SaneMinter: true,
+		MinterCfg: MinterGenCfg{MaxPeriods: 3, MaxAmountExp: 24, MaxStepsHint: 50, Horizon: 48 * time.Hour, AllowNone: true},
+		DistCfg:   DistGenCfg{MaxSubs: 3, MultiSource: true, ShareToMain: true, AllowBurn: true, BaseAddrs: []string{kernel.ActorBech(spec.Clients[1]), kernel.ActorBech(spec.Clients[2])}}}
+	gens = append(gens, func(run *kernel.Run, x *kernel.Rng) *kernel.Tx {
+		m := gw.anyUpdate(run, x, gov())
+		if m == nil {
+			return nil
+		}
+		t := msgTx(spec.Clients[1], m, "direct")
+		if t != nil {
+			t.Note = "valid-update-direct"
+		}
+		return t
+	})
 	src := &c20Source{genSource: &genSource{rng: rr, nBlocks: rr.Range(8, 20), Cadence: w.cadence, MaxTxs: 8, PTx: 1.0, TxGens: gens}, g: g, lastBlk: -1}
 	return c20Exec(tr, src)
 }
